@@ -273,6 +273,26 @@ def check_map(ctx, fi):
                 callee = cnd[2][1].split('.')[-1]
                 if callee == 'map_sample_to_cycle':
                     dead = (callee, ln)
+    # "defined for every existing item": a map may only raise under a condition that cannot hold (the historical
+    # contiguity guards `np.all(...) is False` compare a numpy boolean by identity and are never true)
+    c3 = 'the map does not raise for an existing item'
+    live = None
+    nraise = 0
+    for e in exits:
+        if e.kind != 'raise':
+            continue
+        nraise += 1
+        dead = any(truth and cnd[0] == 'cmp' and cnd[1] == 'is' and cnd[3] in (C(False), C(True)) and cnd[2][0] == 'call'
+                   and cnd[2][1] in ('numpy.all', 'numpy.any') for cnd, truth, ln in e.state.conds)
+        if not dead:
+            live = e
+    if live is not None:
+        ctx.violation('C16.R1', fi, c3, 'a path raises %s under %s: the map is undefined for items it should cover'
+                      % (show(live.value)[:40], '; '.join(('' if t_ else 'not ') + show(c_)[:60]
+                                                         for c_, t_, l_ in live.state.conds[-3:]) or 'no condition'),
+                      node=live.node)
+    elif nraise:
+        ctx.passed('C16.R1', fi, c3, '%d raising path(s), all behind a condition that is never true' % nraise)
     if nret == 0:
         ctx.undecided('C16.R1', fi, c1, 'no return path')
         return
@@ -467,7 +487,15 @@ def rule_projections(ctx, rid):
         if bad:
             ctx.violation(rid, fi, c1, bad)
         elif n == 0:
-            ctx.undecided(rid, fi, c1, 'no store found')
+            # the loop is there but nothing is written into the result: every item stays missing
+            loops_found = any(ls.kind == 'for' for e in exits for ls in e.state.loops)
+            rets = [e for e in exits if e.kind == 'return']
+            plain = rets and all(e.value[0] in ('bin', 'meth', 'call') for e in rets)
+            if loops_found or plain:
+                ctx.violation(rid, fi, c1, 'no value is written into the projected vector: every target item stays '
+                              'missing' if loops_found else 'the projection loop is gone: %s' % show(rets[0].value)[:60])
+            else:
+                ctx.undecided(rid, fi, c1, 'no store found')
         else:
             ctx.passed(rid, fi, c1, '%d store states' % n)
         txt = show(init) if init is not None else ''
